@@ -467,7 +467,15 @@ func (w *xw) unknownElem() {
 			`<link rel="self" href="https://example.test/"> </link>`,
 			`<br></br>`,
 			`<x:ext xmlns:x="https://example.test/ns" x:flag="1"/>`,
-		}[w.r.Intn(5)])
+			// XML names are case sensitive: these are not OSM elements either
+			`<Node id="990001" lat="1" lon="1" version="1"/>`,
+			`<WAY id="990002"><ND ref="1"/></WAY>`,
+			`<Relation id="990003"></Relation>`,
+			`<Changeset id="990004"/>`,
+			`<NOTE lat="1" lon="1"></NOTE>`,
+			`<User id="990005" display_name="x"/>`,
+			`<Bounds minlat="0" minlon="0" maxlat="1" maxlon="1"/>`,
+		}[w.r.Intn(12)])
 	}
 }
 
